@@ -254,6 +254,20 @@ Qed.
 Example ex_ops_clean : Forall op_clean capture_ops /\ Forall op_clean nested_domain_ops.
 Proof. split; repeat constructor. Qed.
 
+(* a plain resource whose path is written with an escape is indexed under the decoded key but compared
+   as written: a path that is not a fixed point of path_safe (yarl yields "/a%20b" for the target
+   "/a%2%30b") matches it under the rule but is not found through the index *)
+Definition s_a20b : str := [47; 97; 37; 50; 48; 98].                     (* /a%20b *)
+
+Theorem index_rule_nonfixpoint_witness :
+  exists rt, build_app [ORoute s_POST s_a20b 1] = BOk rt /\ path_safe_dec s_a20b <> s_a20b /\
+    resolve_ix rt None s_a20b s_POST = NotFound /\ resolve_rule rt None s_a20b s_POST = Found 1 [].
+Proof.
+  destruct (build_app [ORoute s_POST s_a20b 1]) as [rt|e] eqn:E; [|vm_compute in E; discriminate].
+  exists rt. split; [reflexivity|]. vm_compute in E. inversion E; subst rt. clear E.
+  split; [vm_compute; discriminate|]. split; vm_compute; reflexivity.
+Qed.
+
 (* /{a}-{b} : values free of '/', '{', '}' that do not come back *)
 Definition t_a_b : str := [47; 123; 97; 125; 45; 123; 98; 125].
 Definition vals_ab : list (str * str) := [([97], [120]); ([98], [121; 45; 122])].      (* a = x, b = y-z *)
